@@ -148,6 +148,8 @@ func classify(sigil byte, text, line, before, after string) (string, bool) {
 			return "global-use-in-function-header", false
 		}
 		switch {
+		case strings.HasSuffix(tb, "blockaddress(") && strings.HasPrefix(strings.TrimSpace(line), "uselistorder"):
+			return "uselistorder-blockaddress-function", false
 		case strings.HasSuffix(tb, "blockaddress("):
 			return "blockaddress-function", false
 		case strings.Contains(line, " alias ") || strings.Contains(line, " ifunc "):
@@ -188,6 +190,8 @@ func classify(sigil byte, text, line, before, after string) (string, bool) {
 			if strings.HasPrefix(ta, "]") {
 				return "phi-predecessor", false
 			}
+		case strings.Contains(before, "blockaddress(") && strings.HasPrefix(trimmed, "uselistorder"):
+			return "uselistorder-blockaddress-block", false
 		case strings.Contains(before, "blockaddress("):
 			return "blockaddress-block", false
 		}
@@ -543,39 +547,41 @@ func TestCatalogue(t *testing.T) {
 	const test = "Catalogue"
 	hx.Rule(test, "hand-written single naming faults at sites the generator does not reach: type alias to an undefined type, alias chain, use-list-order targets, DI field, metadata call argument, named-metadata operand, global duplicated by a function, ifunc resolver, personality, prefix data, comdat of a function")
 	cat := map[string]string{
-		"type-alias-target":      "%a = type %b\n@g = global %a* null\n",
-		"type-in-struct-body":    "%a = type { i32, %b* }\n@g = global %a zeroinitializer\n",
-		"uselistorder-target":    "@g = global i32 0\ndefine void @f() {\n  ret void\n}\nuselistorder i32* @nosuch, { 1, 0 }\n",
-		"uselistorder_bb-block":  "define void @f() {\n  br label %b\nb:\n  ret void\n}\nuselistorder_bb @f, %nosuch, { 1, 0 }\n",
-		"uselistorder_bb-func":   "define void @f() {\n  br label %b\nb:\n  ret void\n}\nuselistorder_bb @nosuch, %b, { 1, 0 }\n",
-		"metadata-DI-field":      "!named = !{!0}\n!0 = !DILocation(line: 1, column: 1, scope: !99)\n",
-		"metadata-call-argument": "declare void @llvm.foo(metadata)\ndefine void @f() {\n  call void @llvm.foo(metadata !99)\n  ret void\n}\n",
-		"named-metadata-operand": "!named = !{!99}\n",
-		"function-attachment":    "define void @f() !dbg !99 {\n  ret void\n}\n",
-		"global-attachment":      "@g = global i32 0, !foo !99\n",
-		"duplicate-global-func":  "@x = global i32 0\ndefine void @x() {\n  ret void\n}\n",
-		"duplicate-func-alias":   "@g = global i32 0\ndefine void @x() {\n  ret void\n}\n@x = alias i32, i32* @g\n",
-		"duplicate-param":        "define void @f(i32 %a, i32 %a) {\n  ret void\n}\n",
-		"duplicate-label":        "define void @f() {\n  br label %a\na:\n  br label %a\na:\n  ret void\n}\n",
-		"param-vs-local":         "define i32 @f(i32 %a) {\n  %a = add i32 1, 2\n  ret i32 %a\n}\n",
-		"ifunc-resolver":         "@i = ifunc void (), void ()* ()* @nosuch\n",
-		"personality":            "define void @f() personality i32 ()* @nosuch {\n  ret void\n}\n",
-		"prefix-data":            "define void @f() prefix i32* @nosuch {\n  ret void\n}\n",
-		"function-comdat":        "define void @f() comdat($nosuch) {\n  ret void\n}\n",
-		"implicit-comdat":        "@g = global i32 0, comdat\n",
-		"invoke-unwind-target":   "declare void @g()\ndeclare i32 @p(...)\ndefine void @f() personality i32 (...)* @p {\n  invoke void @g() to label %ok unwind label %nosuch\nok:\n  ret void\n}\n",
-		"switch-case-target":     "define void @f(i32 %x) {\n  switch i32 %x, label %d [ i32 1, label %nosuch ]\nd:\n  ret void\n}\n",
-		"indirectbr-target":      "define void @f(i8* %p) {\n  indirectbr i8* %p, [label %nosuch]\n}\n",
-		"callbr-target":          "define void @f() {\n  callbr void asm \"\", \"X\"(i8* blockaddress(@f, %nosuch)) to label %a [label %nosuch]\na:\n  ret void\n}\n",
-		"constexpr-operand":      "@g = global i64 ptrtoint (i32* @nosuch to i64)\n",
-		"gep-constexpr-base":     "@g = global i32* getelementptr (i32, i32* @nosuch, i64 1)\n",
-		"dso_local_equivalent":   "@g = global void ()* dso_local_equivalent @nosuch\n",
-		"no_cfi":                 "@g = global void ()* no_cfi @nosuch\n",
-		"phi-incoming-value":     "define i32 @f() {\n  br label %b\nb:\n  %p = phi i32 [ %nosuch, %0 ]\n  ret i32 %p\n}\n",
-		"bundle-operand":         "declare void @g()\ndefine void @f() {\n  call void @g() [ \"x\"(i32 %nosuch) ]\n  ret void\n}\n",
-		"metadata-value-local":   "declare void @llvm.foo(metadata)\ndefine void @f() {\n  call void @llvm.foo(metadata i32 %nosuch)\n  ret void\n}\n",
-		"attribute-byval-type":   "declare void @f(i8* byval(%nosuch))\n",
-		"sret-type":              "declare void @f(i8* sret(%nosuch))\n",
+		"type-alias-target":               "%a = type %b\n@g = global %a* null\n",
+		"type-in-struct-body":             "%a = type { i32, %b* }\n@g = global %a zeroinitializer\n",
+		"uselistorder-target":             "@g = global i32 0\ndefine void @f() {\n  ret void\n}\nuselistorder i32* @nosuch, { 1, 0 }\n",
+		"uselistorder_bb-block":           "define void @f() {\n  br label %b\nb:\n  ret void\n}\nuselistorder_bb @f, %nosuch, { 1, 0 }\n",
+		"uselistorder-blockaddress-block": "define void @f() {\n  br label %b\nb:\n  ret void\n}\n@t = global [2 x i8*] [i8* blockaddress(@f, %b), i8* blockaddress(@f, %b)]\nuselistorder i8* blockaddress(@f, %nosuch), { 1, 0 }\n",
+		"uselistorder-blockaddress-func":  "define void @f() {\n  br label %b\nb:\n  ret void\n}\n@t = global [2 x i8*] [i8* blockaddress(@f, %b), i8* blockaddress(@f, %b)]\nuselistorder i8* blockaddress(@nosuch, %b), { 1, 0 }\n",
+		"uselistorder_bb-func":            "define void @f() {\n  br label %b\nb:\n  ret void\n}\nuselistorder_bb @nosuch, %b, { 1, 0 }\n",
+		"metadata-DI-field":               "!named = !{!0}\n!0 = !DILocation(line: 1, column: 1, scope: !99)\n",
+		"metadata-call-argument":          "declare void @llvm.foo(metadata)\ndefine void @f() {\n  call void @llvm.foo(metadata !99)\n  ret void\n}\n",
+		"named-metadata-operand":          "!named = !{!99}\n",
+		"function-attachment":             "define void @f() !dbg !99 {\n  ret void\n}\n",
+		"global-attachment":               "@g = global i32 0, !foo !99\n",
+		"duplicate-global-func":           "@x = global i32 0\ndefine void @x() {\n  ret void\n}\n",
+		"duplicate-func-alias":            "@g = global i32 0\ndefine void @x() {\n  ret void\n}\n@x = alias i32, i32* @g\n",
+		"duplicate-param":                 "define void @f(i32 %a, i32 %a) {\n  ret void\n}\n",
+		"duplicate-label":                 "define void @f() {\n  br label %a\na:\n  br label %a\na:\n  ret void\n}\n",
+		"param-vs-local":                  "define i32 @f(i32 %a) {\n  %a = add i32 1, 2\n  ret i32 %a\n}\n",
+		"ifunc-resolver":                  "@i = ifunc void (), void ()* ()* @nosuch\n",
+		"personality":                     "define void @f() personality i32 ()* @nosuch {\n  ret void\n}\n",
+		"prefix-data":                     "define void @f() prefix i32* @nosuch {\n  ret void\n}\n",
+		"function-comdat":                 "define void @f() comdat($nosuch) {\n  ret void\n}\n",
+		"implicit-comdat":                 "@g = global i32 0, comdat\n",
+		"invoke-unwind-target":            "declare void @g()\ndeclare i32 @p(...)\ndefine void @f() personality i32 (...)* @p {\n  invoke void @g() to label %ok unwind label %nosuch\nok:\n  ret void\n}\n",
+		"switch-case-target":              "define void @f(i32 %x) {\n  switch i32 %x, label %d [ i32 1, label %nosuch ]\nd:\n  ret void\n}\n",
+		"indirectbr-target":               "define void @f(i8* %p) {\n  indirectbr i8* %p, [label %nosuch]\n}\n",
+		"callbr-target":                   "define void @f() {\n  callbr void asm \"\", \"X\"(i8* blockaddress(@f, %nosuch)) to label %a [label %nosuch]\na:\n  ret void\n}\n",
+		"constexpr-operand":               "@g = global i64 ptrtoint (i32* @nosuch to i64)\n",
+		"gep-constexpr-base":              "@g = global i32* getelementptr (i32, i32* @nosuch, i64 1)\n",
+		"dso_local_equivalent":            "@g = global void ()* dso_local_equivalent @nosuch\n",
+		"no_cfi":                          "@g = global void ()* no_cfi @nosuch\n",
+		"phi-incoming-value":              "define i32 @f() {\n  br label %b\nb:\n  %p = phi i32 [ %nosuch, %0 ]\n  ret i32 %p\n}\n",
+		"bundle-operand":                  "declare void @g()\ndefine void @f() {\n  call void @g() [ \"x\"(i32 %nosuch) ]\n  ret void\n}\n",
+		"metadata-value-local":            "declare void @llvm.foo(metadata)\ndefine void @f() {\n  call void @llvm.foo(metadata i32 %nosuch)\n  ret void\n}\n",
+		"attribute-byval-type":            "declare void @f(i8* byval(%nosuch))\n",
+		"sret-type":                       "declare void @f(i8* sret(%nosuch))\n",
 	}
 	var names []string
 	for k := range cat {
